@@ -13,6 +13,9 @@ Streams
   E  histories of register_* / validate calls                                                         -> validate() never
      returns on a schema that a fresh validation rejects
   F  `_is_valid_name` on generated strings; `is_subtype` on all small type pairs
+  G  ONE resolver callable shared by >= 2 fields (same type / different types) whose arguments have equal names but
+     different nullability / defaults / extras, in every order of the types (fields)                  -> same verdict and
+     report in every order, every offending field reported (expectation from the calling convention)
 Every schema sent to the model is the DUMP OF THE LIVE OBJECT (`dump_schema(..., include_builtin, resolvers)`).
 """
 import copy
@@ -65,6 +68,17 @@ def build_code(desc, order=None):
     from py_gql import schema as S
     builtin = {t.name: t for t in S.SPECIFIED_SCALAR_TYPES}
     reg = {}
+    shared = {}    # "resolver_key" -> ONE callable object used by every field that names the key
+
+    def resolver_of(f):
+        if f.get("resolver") is None:
+            return None
+        k = f.get("resolver_key")
+        if k is None:
+            return make_resolver(f["resolver"])
+        if k not in shared:
+            shared[k] = make_resolver(f["resolver"])
+        return shared[k]
 
     def ref(n):
         return reg[n] if n in reg else builtin[n]
@@ -85,7 +99,7 @@ def build_code(desc, order=None):
     def field(f):
         return S.Field(f["name"], (lambda t=f["type"]: ty(t)), args=[arg(a, S.Argument) for a in f.get("args") or []],
                        deprecation_reason=f.get("deprecated"),
-                       resolver=make_resolver(f["resolver"]) if f.get("resolver") is not None else None)
+                       resolver=resolver_of(f))
 
     for t in desc["types"]:
         k, n = t["kind"], t["name"]
@@ -881,7 +895,7 @@ class Batch:
 
 
 def sig_of(labels):
-    return "+".join(sorted("%s>%s" % (n, r) for n, r in labels)) or "none"
+    return "+".join(sorted({"%s>%s" % (n, r) for n, r in labels})) or "none"
 
 
 def check_schema(ctx, batch, schema, labels, how, info, desc=None):
@@ -1232,6 +1246,123 @@ def shape(a, b):
     return "%s<:%s" % (sh(a), sh(b))
 
 
+
+# ---- G: one resolver callable shared by several fields ------------------------------------------
+
+def spec_resolver_rules(args, sig):
+    """Rules a resolver with parameter list `sig` breaks for a field with `args` — computed from the
+    calling convention `resolver(root, ctx, info, **coerced_args)` (independent of validation.py)."""
+    import inspect
+    params = list(inspect.signature(make_resolver(sig)).parameters.values())
+    P = inspect.Parameter
+    by_name = {p.name: p for p in params}
+    var_kw = any(p.kind is P.VAR_KEYWORD for p in params)
+    var_pos = any(p.kind is P.VAR_POSITIONAL for p in params)
+    out = Counter()
+    names = []
+    for a in args:
+        n = a.get("python_name") or a["name"]
+        names.append(n)
+        p = by_name.get(n)
+        required = a["type"][0] == "nonNull" and a.get("default") is None
+        if p is None:
+            if not var_kw:
+                out["resMissingParam"] += 1
+        elif p.kind is P.POSITIONAL_ONLY:
+            out["resPosOnly"] += 1
+        elif p.default is P.empty and a.get("default") is None and not required:
+            out["resNeedsDefault"] += 1      # the argument may be absent from the call
+    rest = [p for p in params if p.name not in names and p.kind not in (P.VAR_KEYWORD, P.VAR_POSITIONAL)]
+    if not var_pos and len([p for p in rest if p.kind in (P.POSITIONAL_ONLY, P.POSITIONAL_OR_KEYWORD)]) < 3:
+        out["resPositional"] += 1
+    out["resExtraRequired"] += sum(1 for p in rest[3:] if p.default is P.empty)
+    return +out
+
+
+SHARED_ARG_VARIANTS = [
+    # (label, args)  — identically NAMED arguments, different nullability / defaults / extras
+    ("req", [("limit", ("nonNull", ("named", "Int")), None)]),
+    ("opt", [("limit", ("named", "Int"), None)]),
+    ("dflt", [("limit", ("named", "Int"), "1")]),
+    ("req_dflt", [("limit", ("nonNull", ("named", "Int")), "1")]),
+    ("list", [("limit", ("list", ("nonNull", ("named", "Int"))), None)]),
+    ("extra_opt", [("limit", ("nonNull", ("named", "Int")), None), ("after", ("named", "String"), None)]),
+    ("extra_req", [("limit", ("nonNull", ("named", "Int")), None), ("after", ("nonNull", ("named", "String")), None)]),
+    ("none", []),
+]
+SHARED_SIGS = ["root, ctx, info, limit", "root, ctx, info, limit=None", "root, ctx, info, limit, after=None",
+               "root, ctx, info, limit, after", "root, ctx, info, limit, **kw", "root, ctx, info, **kw", "root, ctx, limit",
+               "root, ctx, info, limit, /", "root, ctx, info, *, limit", "root, ctx, info"]
+
+
+def shared_desc(rng, variants, sig, same_type):
+    """Object types whose `items` fields (or fields i0.. of ONE type) all use the same resolver callable."""
+    def fld(name, v):
+        return {"name": name, "type": ("named", "Int"), "deprecated": None, "desc": None, "resolver": sig, "resolver_key": "shared",
+                "args": [{"name": n, "type": t, "default": d, "desc": None} for n, t, d in v[1]]}
+    types = []
+    if same_type:
+        types.append({"kind": "object", "name": "Holder", "desc": None, "interfaces": [],
+                      "fields": [fld("i%d" % i, v) for i, v in enumerate(variants)]})
+    else:
+        for i, v in enumerate(variants):
+            types.append({"kind": "object", "name": "T%d_%s" % (i, v[0]), "desc": None, "interfaces": [], "fields": [fld("items", v)]})
+    q = {"kind": "object", "name": "Query", "desc": None, "interfaces": [],
+         "fields": [{"name": "q%d" % i, "type": ("named", t["name"]), "args": [], "deprecated": None, "desc": None} for i, t in enumerate(types)]}
+    return {"types": types + [q], "directives": [], "query": "Query", "mutation": None, "subscription": None}
+
+
+def stream_shared_resolvers(ctx, batch):
+    """One callable on >= 2 fields (same type / different types), arguments with equal names but different
+    nullability / defaults / extra arguments; every order of the types (and of the fields); zero, one and
+    several offending fields. Expectation per field from `spec_resolver_rules`; the verdict and the reported
+    multiset must not depend on the order."""
+    rng = ctx.rng
+    combos = [(a, b) for a in SHARED_ARG_VARIANTS for b in SHARED_ARG_VARIANTS if a[0] != b[0]]
+    triples = [tuple(rng.sample(SHARED_ARG_VARIANTS, 3)) for _ in range(ctx.n(10, 60))]
+    cases = [(c, sig, st) for c in combos + triples for sig in SHARED_SIGS for st in (False, True)]
+    if len(cases) > ctx.n(260, 2400):
+        cases = rng.sample(cases, ctx.n(260, 2400))
+    done = 0
+    for variants, sig, same_type in cases:
+        if ctx.time_left() < 15:
+            break
+        base = shared_desc(rng, variants, sig, same_type)
+        per_field = [spec_resolver_rules([{"name": n, "type": t, "default": d} for n, t, d in v[1]], sig) for v in variants]
+        expected = sum(per_field, Counter())
+        offending = sum(1 for c in per_field if c)
+        ctx.stat("shared:offending-fields=%d" % min(offending, 3))
+        labels = [("shared_resolver", r) for v, c in zip(variants, per_field) for r in c.elements()]
+        n = len(variants)
+        ref = None
+        for p in itertools.permutations(range(n)):
+            d = copy.deepcopy(base)
+            if same_type:
+                d["types"][0]["fields"] = [d["types"][0]["fields"][i] for i in p]
+                order = None
+            else:
+                order = list(p) + [n]
+            s = try_build(ctx, build_code, d, order)
+            if s is None:
+                continue
+            done += 1
+            info = {"sig": sig, "variants": [v[0] for v in variants], "same_type": same_type, "order": list(p)}
+            if order is not None:      # replayable description: types already in the supplied order
+                d["types"] = [d["types"][i] for i in order]
+            verdict, errs = check_schema(ctx, batch, s, labels, "code", info, desc=d)
+            cur = (verdict, sorted(Counter(r for r, _ in errs).items()))
+            if ref is None:
+                ref = (cur, list(p), d)
+            elif cur[0] != ref[0][0]:
+                ctx.fail("verdict-depends-on-order:shared-resolver:%s" % ("fields" if same_type else "types"),
+                         "one resolver shared by several fields: the verdict changes with the order of the %s" % ("fields" if same_type else "types"),
+                         {"how": "shared-order", "desc_a": ref[2], "desc_b": d, "verdict_a": ref[0], "verdict_b": cur, "info": info})
+            elif cur != ref[0]:
+                ctx.fail("report-depends-on-order:shared-resolver:%s" % ("fields" if same_type else "types"),
+                         "one resolver shared by several fields: the reported rules change with the order (not all violations reported)",
+                         {"how": "shared-order", "desc_a": ref[2], "desc_b": d, "verdict_a": ref[0], "verdict_b": cur, "info": info})
+    ctx.extra["shared_resolver_cases"] = done
+
 # ---- E: cache histories -------------------------------------------------------------------------
 
 def gen_history(rng, desc, length):
@@ -1511,6 +1642,7 @@ def run(ctx):
     batch = Batch(ctx)
     corpus_cases(ctx, batch)
     stream_subtype_and_names(ctx, batch)
+    stream_shared_resolvers(ctx, batch)
     stream_every_position(ctx, batch)
     stream_permutations(ctx, batch)
     stream_histories(ctx, batch)
@@ -1557,6 +1689,10 @@ def replay(ctx, data):
         s = (build_code if inp.get("builder") == "build_code" else build_sdl)(desc)
         trace, _ = run_history_real(s, inp["ops"])
         return not any(o["op"] == "validate" and t["outcome"] == "ok" and t["fresh_valid"] is False for o, t in zip(inp["ops"], trace))
+    if how == "shared-order":
+        va, ea = real_validate(build_code(_to_tuples(inp["desc_a"])))
+        vb, eb = real_validate(build_code(_to_tuples(inp["desc_b"])))
+        return (va, sorted(Counter(r for r, _ in ea).items())) == (vb, sorted(Counter(r for r, _ in eb).items()))
     if how.startswith("perm"):
         b = build_code if "build_code" in how else (lambda d, o: build_sdl(d, o + list(range(len(o), gs.n_definitions(d)))))
         va = real_validate(b(desc, inp["order_a"]))[0]
